@@ -26,6 +26,12 @@
 //! kind 3 (concurrent process group; oracle only)
 //!   case: [3; workers; n_actors; (cap prestopped)*; T; (n_ops; (code x)*)*]  code 1 join x, 2 leave, 3 send x
 //!   out:  [n_msgs; (id result times_handled)*; group_len; held_open; held_total]
+//!
+//! kind 4 (forced schedule of the window between the receiver's drain and its disconnection,
+//!         through the cfg(compio_verif) scheduling points of compio_actor::verif)
+//!   case: [4; which]   1: a call that passed its closed-check before stop() pushes after the drain
+//!                      2: Cluster::join drops the actor task; a call arrives after the drain
+//!   out:  [push status; call result (1 reply, 4 no reply, 9 never answered); actor gone]
 use std::{
     collections::HashMap,
     num::NonZeroUsize,
@@ -1045,12 +1051,106 @@ fn run_kind3(c: &mut Case) -> Result<Vec<u64>, BadCase> {
     Ok(out)
 }
 
+fn run_kind4(c: &mut Case) -> Result<Vec<u64>, BadCase> {
+    use compio_actor::verif::{RECEIVER_DRAINED, SEND_CHECKED, arrived, block};
+    let which = c.take()?;
+    if !(1..=2).contains(&which) || c.i != c.v.len() {
+        return Err(BadCase);
+    }
+    let rt = compio_runtime::Runtime::new().expect("runtime");
+    let out = rt.block_on(async move {
+        let world = Arc::new(World {
+            activity: AtomicU64::new(0),
+            events: Mutex::new(Vec::new()),
+            kind: 1,
+        });
+        let cluster = mk_cluster(1);
+        let a = spawn_typed::<0>(&cluster, &world, 0, 2, 0, None).await;
+        let Some(AnyMb::M0(mb)) = a.mb else { unreachable!() };
+        let wait_for = |f: &dyn Fn() -> bool| {
+            let t0 = Instant::now();
+            while !f() && t0.elapsed() < WATCHDOG {
+                std::thread::sleep(Duration::from_micros(200));
+            }
+            f()
+        };
+        let result: Arc<Mutex<Option<u64>>> = Arc::new(Mutex::new(None));
+        let caller = |mb: Mailbox<TActor<0>>, result: Arc<Mutex<Option<u64>>>| {
+            std::thread::spawn(move || {
+                let rt = compio_runtime::Runtime::new().expect("runtime");
+                rt.block_on(async move {
+                    let r = compio_runtime::time::timeout(
+                        Duration::from_millis(1200),
+                        mb.call(Ask { id: 1, beh: 0, gate: None }),
+                    )
+                    .await;
+                    *result.lock().unwrap() = Some(match r {
+                        Err(_) => 9,
+                        Ok(Ok(_)) => 1,
+                        Ok(Err(e)) => call_status(&e),
+                    });
+                });
+            })
+        };
+        let a0 = arrived(SEND_CHECKED);
+        let d0 = arrived(RECEIVER_DRAINED);
+        let mut ok = true;
+        let th;
+        if which == 1 {
+            block(SEND_CHECKED, true);
+            th = caller(mb.clone(), result.clone());
+            ok &= wait_for(&|| arrived(SEND_CHECKED) > a0);
+            block(RECEIVER_DRAINED, true);
+            mb.stop();
+            ok &= wait_for(&|| arrived(RECEIVER_DRAINED) > d0);
+            block(SEND_CHECKED, false);
+        } else {
+            block(RECEIVER_DRAINED, true);
+            let cl = cluster.clone();
+            compio_runtime::spawn(async move {
+                cl.join().await.ok();
+            })
+            .detach();
+            // the worker drops its runtime: the actor task and its Receiver are dropped
+            let t0 = Instant::now();
+            while arrived(RECEIVER_DRAINED) <= d0 && t0.elapsed() < WATCHDOG {
+                compio_runtime::time::sleep(Duration::from_micros(200)).await;
+            }
+            ok &= arrived(RECEIVER_DRAINED) > d0;
+            th = caller(mb.clone(), result.clone());
+        }
+        // the message is in the channel once the mailbox reports it queued
+        let pushed = wait_for(&|| format!("{mb:?}").contains("queued: 1") || result.lock().unwrap().is_some());
+        let queued = format!("{mb:?}").contains("queued: 1");
+        block(RECEIVER_DRAINED, false);
+        let t0 = Instant::now();
+        while !th.is_finished() && t0.elapsed() < WATCHDOG {
+            compio_runtime::time::sleep(Duration::from_micros(500)).await;
+        }
+        th.join().ok();
+        let gone = mb.is_closed();
+        if which == 1 {
+            if let Some(h) = a.handle {
+                compio_runtime::time::timeout(WATCHDOG, h).await.ok();
+            }
+            compio_runtime::time::timeout(WATCHDOG, cluster.join()).await.ok();
+        }
+        let r = result.lock().unwrap().unwrap_or(7);
+        if !ok || !pushed {
+            return vec![0, r, gone as u64];
+        }
+        vec![if queued || r == 9 || r == 1 || r == 4 { 1 } else { r }, r, gone as u64]
+    });
+    Ok(out)
+}
+
 fn run(case: &[u64]) -> Result<Vec<u64>, BadCase> {
     let mut c = Case::new(case);
     match c.take()? {
         1 => run_kind1(&mut c),
         2 => run_kind2(&mut c),
         3 => run_kind3(&mut c),
+        4 => run_kind4(&mut c),
         _ => Err(BadCase),
     }
 }
